@@ -477,5 +477,16 @@ def job_wiring(job):
             if [float(t) for t in got["temperatures"]] != [float(t) for t in st["temps"]]:
                 r.violation("wiring|temperatures", "sampler for %s received temperatures %r, the command line says %r" % (sample, got["temperatures"], st["temps"]), payload)
         r.outcome(tuple(sorted(st.items())))
-    r.sample({"wiring": "assemble CLI options -> DenovoMCMC attributes", "settings": len(settings)})
+    # every numeric sampler option, boundary values included (0 is falsy: a default must not replace it)
+    from .. import optwire
+    from mchap.application import arguments as A
+
+    opts = tuple(f for f, _, _ in optwire.scalar_options(A.ASSEMBLE_MCMC_PARSER_ARGUMENTS) if f.startswith("--mcmc-"))
+    optwire.check(r, payload, asm.program, D.assemble_args(bed=bed), A.ASSEMBLE_MCMC_PARSER_ARGUMENTS, "assemble", only=opts)
+    for v in (0.0, 0.5, 0.999, 1.0):
+        obj = asm.program.cli(D.assemble_args(bed=bed) + ["--mcmc-fix-homozygous", repr(v)])
+        r.evaluations += 1
+        if float(obj.mcmc_fix_homozygous) != v:
+            r.violation("wiring|cli-fix-homozygous", "--mcmc-fix-homozygous %r gives a program with %r" % (v, obj.mcmc_fix_homozygous), payload)
+    r.sample({"wiring": "assemble CLI options -> DenovoMCMC attributes", "settings": len(settings), "option_injectivity": list(opts)})
     return r
